@@ -6,8 +6,9 @@
      both limits empty -> Collection.Scan / SearchValues over everything, otherwise
      Collection.ScanRange / SearchValuesRange(limits[0], limits[1], desc) exactly as written in
      collection.go (pivot of Ascend / Descend, the early "return false" at the end of the range),
-     each visited object filtered by scanWriter.globMatch (globEverything, else the first
-     matching pattern wins).
+     each visited object handed to scanWriter.pushObject -> testObject -> globMatch
+     (scanner.go) with their (ok, keepGoing) results as written: the walk ends at the first
+     keepGoing = false (LIMIT reached; nothing else in the code as it stands).
    * hook_walk : Server.forEachHookByPattern (hooks.go) over the one name-ordered tree that
      holds hooks and channels: Ascend from Limits[0], stop at the first name above Limits[1]
      (when there is an upper limit), *skip* entries of the other kind, keep the matching ones.
@@ -47,6 +48,66 @@ Fixpoint take_until {A} (stop : A -> bool) (l : list A) : list A :=
   | x :: r => if stop x then [] else x :: take_until stop r
   end.
 
+(* ---- scanWriter: globMatch / testObject / pushObject with their iteration-control results ----
+   Every iterator callback of cmdScan / cmdSearch is
+       keepGoing, err := sw.pushObject(ScanWriterParams{obj: o}); return keepGoing
+   so the walk over the visited entries ends as soon as pushObject answers false.  The three
+   functions are transcribed with both results (ok, keepGoing), for ids (SCAN: text = o.ID())
+   and for values (SEARCH: sw.matchValues, text = o.String()). *)
+Section Push.
+  Context {A : Type}.
+  Variable globs : list bytes.      (* sw.globs *)
+  Variable text : A -> bytes.       (* o.ID() or, with matchValues, o.String() *)
+  Variable fok : A -> bool.         (* sw.fieldMatch(o): WHERE / WHEREIN / WHEREEVAL (Model/Where.v) *)
+  Variable limit : N.               (* sw.limit *)
+  Variable count_out : bool.        (* sw.output == outputCount *)
+
+  (* for _, pattern := range sw.globs { ok, _ := glob.Match(pattern, val); if ok { return true, true } }
+     return false, true *)
+  Fixpoint first_match (ps : list bytes) (val : bytes) : bool * bool :=
+    match ps with
+    | [] => (false, true)
+    | p :: r => if gmatches p val then (true, true) else first_match r val
+    end.
+
+  (* scanWriter.globMatch: (ok, keepGoing) *)
+  Definition glob_match_kg (o : A) : bool * bool :=
+    if glob_everything globs then (true, true) else first_match globs (text o).
+
+  (* scanWriter.testObject: (ok, keepGoing); the err result belongs to WHEREEVAL, not modelled *)
+  Definition test_object (o : A) : bool * bool :=
+    let '(m, kg) := glob_match_kg o in
+    if negb m then (false, kg) else (fok o, true).
+
+  (* the part of the scanWriter pushObject changes: sw.count, sw.filled (newest first), sw.numberItems *)
+  Record swst := { sw_count : N; sw_filled : list A; sw_nitems : N }.
+  Definition sw0 : swst := {| sw_count := 0; sw_filled := []; sw_nitems := 0 |}.
+
+  (* scanWriter.pushObject (noTest = false): the new state and keepGoing *)
+  Definition push_object (st : swst) (o : A) : swst * bool :=
+    let '(ok, kg) := test_object o in
+    if negb ok then (st, kg) else
+    let c := sw_count st + 1 in
+    if count_out then
+      ({| sw_count := c; sw_filled := sw_filled st; sw_nitems := sw_nitems st |}, c <? limit)
+    else
+      let n := sw_nitems st + 1 in
+      let st' := {| sw_count := c; sw_filled := o :: sw_filled st; sw_nitems := n |} in
+      if n =? limit then (st', false)       (* sw.hitLimit = true; return false *)
+      else (st', kg).
+
+  (* the B-tree walk with that callback: it ends at the first keepGoing = false *)
+  Fixpoint walk_push (st : swst) (l : list A) : swst :=
+    match l with
+    | [] => st
+    | o :: r => let '(st', kg) := push_object st o in if kg then walk_push st' r else st'
+    end.
+
+  (* what the reply shows: the items in the order written, the COUNT *)
+  Definition out_items (st : swst) : list A := rev (sw_filled st).
+  Definition out_count (st : swst) : N := sw_count st.
+End Push.
+
 (* Collection.ScanRange(start, end, desc) over the ids in ascending order:
    ASC : objs.Ascend(start)  = ids >= start, stop at the first id >= end
    DESC: objs.Descend(start) = ids <= start going down, stop at the first id <= end *)
@@ -54,11 +115,18 @@ Definition scan_range_visit (l0 l1 : bytes) (desc : bool) (ids : list bytes) : l
   if desc then take_until (fun k => bytes_leb k l1) (skip_while (fun k => bytes_gtb k l0) (rev ids))
   else take_until (fun k => bytes_geb k l1) (skip_while (fun k => bytes_ltb k l0) ids).
 
-(* cmdScan ... MATCH p1 MATCH p2 ... [DESC] IDS, without cursor / LIMIT (C11 has those) *)
-Definition scan_multi (globs : list bytes) (desc : bool) (ids : list bytes) : list bytes :=
+(* the entries cmdScan hands to pushObject, in order: limits := multiGlobParse(sw.globs, desc);
+   both empty -> Collection.Scan, else Collection.ScanRange(limits[0], limits[1], desc) *)
+Definition scan_visit (globs : list bytes) (desc : bool) (ids : list bytes) : list bytes :=
   let '(l0, l1) := multi_glob_parse globs desc in
-  if isempty l0 && isempty l1 then filter (glob_test globs) (if desc then rev ids else ids)
-  else filter (glob_test globs) (scan_range_visit l0 l1 desc ids).
+  if isempty l0 && isempty l1 then (if desc then rev ids else ids)
+  else scan_range_visit l0 l1 desc ids.
+
+(* cmdScan key [MATCH p]... [WHERE ...] [DESC] [LIMIT n] IDS|COUNT, cursor 0 (C11 has cursors):
+   the scanWriter state after the walk *)
+Definition scan_multi (globs : list bytes) (fok : bytes -> bool) (limit : N) (count_out desc : bool)
+           (ids : list bytes) : swst :=
+  walk_push globs (fun id => id) fok limit count_out sw0 (scan_visit globs desc ids).
 
 (* the value index: entries (string value, id) ordered by value, then id (byValue) *)
 Definition ventry : Type := (bytes * bytes)%type.
@@ -78,12 +146,16 @@ Definition search_range_visit (l0 l1 : bytes) (desc : bool) (vs : list ventry) :
   else take_until (fun e => negb (ventry_ltb e (l1, [])))
          (skip_while (fun e => ventry_ltb e (l0, [])) vs).
 
-(* cmdSearch ... MATCH p1 MATCH p2 ... [DESC] IDS : the ids in reply order *)
-Definition search_multi (globs : list bytes) (desc : bool) (vs : list ventry) : list bytes :=
+Definition search_visit (globs : list bytes) (desc : bool) (vs : list ventry) : list ventry :=
   let '(l0, l1) := multi_glob_parse globs desc in
-  let test := fun e : ventry => glob_test globs (fst e) in
-  map snd (if isempty l0 && isempty l1 then filter test (if desc then rev vs else vs)
-           else filter test (search_range_visit l0 l1 desc vs)).
+  if isempty l0 && isempty l1 then (if desc then rev vs else vs)
+  else search_range_visit l0 l1 desc vs.
+
+(* cmdSearch key [MATCH p]... [WHERE ...] [DESC] [LIMIT n] IDS|COUNT: the same scanWriter with
+   matchValues = true — the patterns are applied to the string VALUE, which several ids may share *)
+Definition search_multi (globs : list bytes) (fok : ventry -> bool) (limit : N) (count_out desc : bool)
+           (vs : list ventry) : swst :=
+  walk_push globs fst fok limit count_out sw0 (search_visit globs desc vs).
 
 (* ---- hooks and channels: one tree, entries (name, channel?) in name order ---- *)
 Definition hentry : Type := (bytes * bool)%type.
